@@ -12,7 +12,7 @@ const SPEC: Spec = Spec {
         "x86_64 / 64-bit digits only",
     ],
     bounds_quick: "M1 Dense(S5,3)^2 + Dense(S8+,2)^2; M2 all 1<=lx<=ly<=100 x 12x12 patterns + squares; M3 lx in {255..259,385,770} x 8 length relations x 12x12 patterns; M4 low/inner zero digits; M5 BigInt sign pairs and scalar forms on the pool; M6 dense LCG digits for every 1<=lx<=ly<=72 x 2x2 members",
-    bounds_thorough: "M1; M2 all 1<=lx<=ly<=400 x 12x12 patterns + squares; M3 lx in {255..262,300,383..386,511..514,767..772,1023..1026,1537..1539,2048,2305,2309..2311} x 8 length relations x 12x12 patterns; M4; M5; M6 up to 160 digits",
+    bounds_thorough: "M1; M2 all 1<=lx<=ly<=400 x 12x12 patterns + squares; M3 lx in {255..262,300,383..386,511..514,767..772,1023..1026,1537..1539,2048,2305,2309..2311} x 8 length relations x 12x12 patterns; M4; M5; M6 up to 160 digits x 6x6 family members",
     hang_secs: 120,
     probes: Some(probes),
     max_workers: 16,
@@ -203,8 +203,9 @@ fn body(ctx: &mut Ctx) {
                 if !take {
                     continue;
                 }
-                for sx in 0..2u64 {
-                    for sy in 2..4u64 {
+                let ns = tier.pick(2u64, 6u64);
+                for sx in 0..ns {
+                    for sy in ns..2 * ns {
                         let (xd, yd) = (alpha::lcg_digits(lx, sx), alpha::lcg_digits(ly, sy));
                         let (xu, yu) = (bu(&xd), bu(&yd));
                         mul_pair(ctx, &xd, &yd, &xu, &yu, false);
